@@ -18,6 +18,7 @@ from liquid2.ast import PartialScope
 from liquid2.builtin import Identifier
 from liquid2.builtin import Literal
 from liquid2.builtin import StringLiteral
+from liquid2.builtin import identifier_str
 from liquid2.builtin import parse_keyword_arguments
 from liquid2.builtin import parse_primitive
 from liquid2.builtin import parse_string_or_identifier
@@ -69,7 +70,7 @@ class RenderNode(Node):
                 var = f" with {self.var}"
 
         if self.alias:
-            var += f" as {self.alias}"
+            var += f" as {identifier_str(self.alias)}"
         if self.args:
             var += ","
         args = " " + ", ".join(str(arg) for arg in self.args) if self.args else ""
